@@ -98,7 +98,8 @@ Record occ := Occ {
   o_start : pos;             (* (lineno, col_offset) *)
   o_end : pos;               (* (end_lineno, end_col_offset) *)
   o_scopes : list nat;       (* ids of the enclosing def/class nodes (AST containment), outermost first *)
-  o_target : bool;           (* yielded by parsing.iter_assignments(innermost enclosing def/class/module) *)
+  o_target : bool;           (* yielded by parsing.iter_assignments(innermost enclosing def/class/module):
+                                a Name under Tuple / List / Starred targets of a direct body statement *)
   o_typevar : bool           (* target of a type definition (parsing.iter_typedefs; not modelled, taken as data) *)
 }.
 
